@@ -410,7 +410,7 @@ class CSSStyleSheet(cssutils.stylesheets.StyleSheet):
         )
 
     def _setCssTextWithEncodingOverride(
-        self, cssText, encodingOverride=None, encoding=None
+        self, cssText, encodingOverride=None, encoding=None, inherit=None
     ):
         """Set `cssText` but use `encodingOverride` to overwrite detected
         encoding. This is used by parse and @import during setting of cssText.
@@ -421,11 +421,18 @@ class CSSStyleSheet(cssutils.stylesheets.StyleSheet):
             # encoding during resolving of @import
             self.__encodingOverride = encodingOverride
 
-        if encoding:
-            # save for nested @import
-            self.__newEncoding = encoding
+        if encoding or inherit:
+            # save for nested @import (`inherit`: known to the imports only,
+            # e.g. found by a BOM of the bytes this text was decoded from)
+            self.__newEncoding = encoding or inherit
 
         self.cssText = cssText
+
+        if inherit and not encoding:
+            try:
+                del self.__newEncoding
+            except AttributeError:
+                pass
 
         if encodingOverride:
             # set encodingOverride explicit again!
